@@ -186,23 +186,36 @@ func mathRad(L *LState) int {
 	return 1
 }
 
+// stateRandom returns the random number generator of the state L belongs to.
+// Every state (a main thread and its coroutines) has a generator of its own, so
+// that neither math.random nor math.randomseed of one state disturbs the sequence
+// another state sees. Until math.randomseed is called the generator is seeded
+// from the process-wide source, as before.
+func stateRandom(L *LState) *rand.Rand {
+	if L.G.random == nil {
+		L.G.random = rand.New(rand.NewSource(rand.Int63()))
+	}
+	return L.G.random
+}
+
 func mathRandom(L *LState) int {
+	rnd := stateRandom(L)
 	switch L.GetTop() {
 	case 0:
-		L.Push(LNumber(rand.Float64()))
+		L.Push(LNumber(rnd.Float64()))
 	case 1:
 		n := L.CheckInt(1)
-		L.Push(LNumber(rand.Intn(n) + 1))
+		L.Push(LNumber(rnd.Intn(n) + 1))
 	default:
 		min := L.CheckInt(1)
 		max := L.CheckInt(2) + 1
-		L.Push(LNumber(rand.Intn(max-min) + min))
+		L.Push(LNumber(rnd.Intn(max-min) + min))
 	}
 	return 1
 }
 
 func mathRandomseed(L *LState) int {
-	rand.Seed(L.CheckInt64(1))
+	stateRandom(L).Seed(L.CheckInt64(1))
 	return 0
 }
 
